@@ -270,6 +270,10 @@ def run(ctx, rep):
     # (shared with C02-R10: the transaction list is never thinned)
     import rules.c02 as c02_
     c02_.every_line_counts(R, rep, "R6")
+    # the day's purchases are interchangeable only if a same-day sale takes from ALL of them pro rata (shared with C03-R4): depleted
+    # unevenly, what is left in each lot — and later pooled at that lot's own cost — depends on the order of the lines (seeded change C06-s10)
+    import rules.c03 as c03_
+    c03_.pro_rata_debits(R, rep, "R3")
     import rules.c09 as c09
     r4 = Report("tmp")
     c09.keyed_access(R, r4)
